@@ -17,6 +17,7 @@ from vlib import Infra, load_known, read_ndjson, write_ndjson, pmap, NCPU
 ASSUME = [
     "files and changes of the TLA+ universe are rendered by lib/prop_c09.py (calls in seven statement contexts, patterns with and without argument elision); results are abstracted by go/parser (harness op histobs: package name and called names in source order), i.e. compared as syntax, not bytes",
     "a failing step is realised by a replacement that refers to a metavariable the '-' side never binds (Replace returns an error)",
+    "calls carry one or two integer literal arguments that the changes bind with expression metavariables, so every rewritten site has its own binding, also in code that an earlier change produced",
     "the `change` hook events (build tag verif) are emitted right after each Change.Match call in patchRunner.Apply",
 ]
 
@@ -43,6 +44,8 @@ CONSTANTS
   Lib = "0"
   OutFile = "%(out)s"
   PerClass = %(per)d
+  NFiles = %(nf)d
+  NSeqs = %(ns)d
 CHECK_DEADLOCK FALSE
 """
 CFG_TRACE = """SPECIFICATION TraceSpec
@@ -70,29 +73,34 @@ def q(l):
 
 def render_file(sc, rng):
     out = ["// Package doc.\npackage %s\n\nfunc f() {\n" % sc["pkg"]]
-    for a in sc["body"]:
-        call = "%s(%s)" % (a, rng.choice(ARGS) if sc["dots"] else "")
+    for c in sc["body"]:
+        call = "%s(%s)" % (c["f"], ", ".join(str(a) for a in c["args"]))
         out.append(rng.choice(CONTEXTS) % call)
         if rng.random() < 0.3:
-            out.append("\tother(%d)\n" % rng.randint(0, 9))
+            out.append("\tother(%d)\n" % rng.randint(3, 9))
     out.append("}\n")
     return "".join(out)
 
 
 def render_change(r, k, dots):
-    arg = "..." if dots else ""
     out = ["@ c%d @" % k]
-    if r["t"] == "fail":
-        out.append("var y expression")
+    if r["t"] == "split":
+        out.append("var x, y expression")
+    elif r["t"] == "fail":
+        out += ["var x expression", "var y expression"]
+    else:
+        out.append("var x expression")
     out.append("@@")
     if r["newpkg"]:
         out += ["-package " + r["guard"], "+package " + r["newpkg"], ""]
     elif r["guard"]:
         out += [" package " + r["guard"], ""]
     if r["t"] == "fail":
-        out += ["-%s(%s)" % (r["from"], arg), "+%s(y)" % r["from"]]
+        out += ["-%s(x)" % r["from"], "+%s(y)" % r["from"]]
+    elif r["t"] == "split":
+        out += ["-%s(x, y)" % r["from"], "+pair(%s(x), %s(y))" % (r["to"], r["to"])]
     else:
-        out += ["-%s(%s)" % (r["from"], arg), "+%s(%s)" % (r["to"], arg)]
+        out += ["-%s(x)" % r["from"], "+%s(x)" % r["to"]]
     return "\n".join(out) + "\n"
 
 
@@ -111,11 +119,11 @@ def run(ctx):
         states += r["distinct"]
         trans += r["states"]
     out = ctx.path("vec", "hist.ndjson")
-    ctx.tlc("EmitHistory", CFG_EMIT % dict(atoms=q(["a", "b", "c"] if not quick else atoms), n=2, len=2, out=out, per=50 if quick else 400),
+    ctx.tlc("EmitHistory", CFG_EMIT % dict(atoms=q(["a", "b", "c"] if not quick else atoms), n=2, len=2, out=out, per=50 if quick else 400, nf=60, ns=1500 if quick else 4000),
             "emit-history", workers=1, timeout=3000, extra=["-seed", str(ctx.seed)])
     scs = read_ndjson(out)
     out3 = ctx.path("vec", "hist3.ndjson")
-    ctx.tlc("EmitHistory", CFG_EMIT % dict(atoms=q(atoms), n=3, len=2, out=out3, per=25 if quick else 300),
+    ctx.tlc("EmitHistory", CFG_EMIT % dict(atoms=q(atoms), n=3, len=2, out=out3, per=25 if quick else 300, nf=40, ns=1500 if quick else 6000),
             "emit-history3", workers=1, timeout=3000, extra=["-seed", str(ctx.seed + 1)])
     scs += read_ndjson(out3)
     results = execute(ctx, scs)
@@ -195,7 +203,7 @@ def execute(ctx, scs):
         if o["err"]:
             return dict(pkg="<unparseable>", body=[])
         j = json.loads(o["out"])
-        return dict(pkg=j["pkg"], body=[c for c in j["calls"] if c in names])
+        return dict(pkg=j["pkg"], body=[dict(f=c["f"], args=c["args"]) for c in j["calls"] if c["f"] in names])
 
     lines = []
     for m in metas:
